@@ -544,7 +544,7 @@ def run(ctx: Ctx):
         ctx.cov["obligations"] = len(OBLIGATIONS)
     hb = ctx.build_harness("harness/c18_ws.cpp", sanitize=True)
     dist = {}
-    if hb and os.path.exists(ctx.model_bin()):
+    if hb:
         corpus = load_corpus()
         cases = corpus + gen_codec_cases(ctx, rng.fork("codec"), scale) + gen_server_cases(ctx, rng.fork("srv"), scale, quick) + \
             gen_client_cases(ctx, rng.fork("cli"), scale, quick)
